@@ -163,6 +163,41 @@ def run(pid, tier, replay=None):
     for dft in tlc.tagged(r2, "DRIFT"):
         chk.model_drift(str(dft))
     chk.extra["exhaustive"] = True
+    # ---- the commitment is a function of the list, also when another thread computes commitments at the same time (the network thread
+    # validates received blocks while the miner assembles candidates): preemption-point exploration on real threads -- thread A computes
+    # root, tree and a proof of one list and is stopped before every line of merkletree.py; at each stop thread B computes another list's
+    # commitment; A's results must be what A gets alone.
+    from harness import preempt
+    import hashlib
+    mt = M
+    la = [hashlib.sha256(b"a%d" % i_).digest() for i_ in range(5)]
+    lb = [hashlib.sha256(b"b%d" % i_).digest() for i_ in range(4)]
+    ref = {"root": mt.get_merkle_root(list(la)), "tree": mt.get_merkle_tree(list(la)).hash(), "proof": mt.get_proof(mt.get_merkle_tree(list(la)), 3).hash(),
+           "b": mt.get_merkle_root(list(lb))}
+
+    def make():
+        out = {}
+
+        def a():
+            out["root"] = mt.get_merkle_root(list(la))
+            t_ = mt.get_merkle_tree(list(la))
+            out["tree"] = t_.hash()
+            out["proof"] = mt.get_proof(t_, 3).hash()
+
+        def b():
+            out["b"] = mt.get_merkle_root(list(lb))
+            out["b2"] = mt.get_merkle_tree(list(lb)).hash()
+        return {"a": a, "b": b, "observe": lambda: dict(out)}
+    npre = nbad = 0
+    for (k_, n_, blocked, obs, errs) in preempt.explore(make, ("skepticoin/merkletree.py",), ks=None if not quick else None):
+        npre += 1
+        chk.case(("preempt", k_), nontrivial=True)
+        wrong = [x for x in ("root", "tree", "proof", "b") if obs.get(x) != ref[x]] + (["b2"] if obs.get("b2") != ref["b"] else [])
+        if wrong or errs:
+            nbad += 1
+            chk.violation("C17:commitment_of_a_list_depends_on_what_another_thread_computes_at_the_same_time",
+                          {"preemption_before_line_stop": k_, "of": n_, "results_that_differ_from_the_sequential_ones": wrong, "errors": errs})
+    chk.extra["preemption_points_explored"] = npre
     chk.extra["rule"] = ("every list length 1..%d (the shape depends on the length only) and every position, the code's commitment/proof compared with "
                          "the SHA-256d interpretation of the shape TLC computed; plus %d random structural edits judged by TLC; non-trivial = the edit changes the list"
                          % (maxshape, nlists))
